@@ -209,6 +209,9 @@ AnyRaw ==
           L("typed", <<I("uint64", IMax + 1)>>), L("typed", <<Str("a"), Str("b")>>), L("bytes", <<I("uint8", 1)>>)}
 
 \* ------------------------------------------------------------------ C04: kinds x classes x positions
+NameObj == ObjectS("N", << Prop("b", StringS(None, None, None), TRUE) >>, "map", FALSE)
+MiddleObj == ObjectS("W", << PropS("a", IntS(None, None, None), FALSE, <<>>, <<>>, <<>>, Some(F64(2)), FALSE, FALSE),
+                            PropS("x", NameObj, FALSE, <<>>, <<>>, <<>>, Some(Str("a")), FALSE, FALSE) >>, "wide", FALSE)
 C04ObjLeafs ==
     { ObjectS("O", << Prop("a", IntS(Some(1), Some(2), None), TRUE), Prop("b", StringS(None, None, None), FALSE) >>, "map", FALSE),
       ObjectS("O", << Prop("a", IntS(Some(1), Some(2), None), FALSE) >>, "map", FALSE),
@@ -225,6 +228,7 @@ C04ObjLeafs ==
       ObjectS("E0", <<>>, "map", FALSE), ObjectS("E0", <<>>, "ptrs", FALSE), ObjectS("E0", <<>>, "wide_p", TRUE),
       ObjectS("O", << Prop("a", IntS(Some(1), Some(2), None), FALSE), Prop("n", ObjectS("E0", <<>>, "map", FALSE), FALSE) >>, "map", FALSE),
       ScopeS("R", << ObjectS("R", << Prop("a", IntS(Some(1), Some(2), None), FALSE), Prop("n", RefS("E0"), FALSE) >>, "map", FALSE), ObjectS("E0", <<>>, "map", FALSE) >>),
+      ObjectS("T", << Prop("a", IntS(Some(1), Some(2), None), TRUE), Prop("w", MiddleObj, FALSE) >>, "outer", FALSE),
       \* objects mapped to a POINTER type, and a one-of over such a member: the typed nil pointer of exactly that
       \* type (junk classes nil_wide / nil_sub) reaches them at the root, as list item, map value and one-of value
       ObjectS("O", << Prop("a", IntS(Some(1), Some(2), None), TRUE), Prop("x", AnyS, FALSE) >>, "wide_p", FALSE),
@@ -286,6 +290,10 @@ C04Values ==
           M("any_any", << <<FS("float64", "nan"), I64(1)>> >>), M("any_any", << <<FS("float64", "+inf"), Str("a")>> >>),
           M("typed", << <<FS("float64", "nan"), I64(1)>> >>)}
     \cup {Re("a")} \cup {J(c) : c \in JunkClasses}
+    \* arrays as map keys and nested
+    \cup { M("any_any", << <<J("arr_str2"), Str("a")>> >>), M("any_any", << <<J("arr_int2"), I64(1)>>, <<Str("a"), I64(1)>> >>),
+           M("any_any", << <<J("arr_named"), I64(1)>> >>), M("any_any", << <<J("arr0"), I64(1)>> >>),
+           L("any", <<J("arr_int2")>>), M("string_any", << <<Str("a"), J("arr_str2")>> >>), L("any", <<J("map_arrkey")>>) }
     \cup { M("any_any", << <<Str("a"), I64(1)>>, <<Str("type"), Str("a")>> >>), M("string_any", << <<Str("a"), I64(1)>>, <<Str("type"), Str("a")>> >>),
            M("string_any", << <<Str("a"), I64(1)>>, <<Str("type"), I64(1)>> >>), M("any_any", << <<Str("a"), I64(1)>>, <<Str("type"), I("uint64", 1)>> >>),
            M("int64_any", << <<I64(1), Str("type")>> >>), M("typed", << <<Str("type"), Str("a")>> >>), M("typed", << <<S("named", "type"), Str("a")>> >>),
@@ -298,7 +306,7 @@ C04Values ==
            Struct("wide_p", << <<"a", Some(I64(1))>>, <<"x", None>> >>), Struct("wide_p", << <<"a", Some(I64(3))>>, <<"x", Some(Str("a"))>> >>),
            Struct("wide", << <<"a", Some(I64(1))>>, <<"sp", None>> >>),
            Struct("wide", << <<"a", Some(I64(1))>>, <<"sp", Some(Struct("sub_p", << <<"a", Some(I64(1))>> >>))>> >>) }
-Hashable(x) == x.k \in {"nil", "bool", "int", "float", "fspecial", "str", "re", "struct"} \/ (x.k = "junk" /\ x.v \in {"time", "struct", "ptr", "nilptr", "nilre", "chan", "nil_wide", "nil_sub"})
+Hashable(x) == x.k \in {"nil", "bool", "int", "float", "fspecial", "str", "re", "struct"} \/ (x.k = "junk" /\ x.v \in {"time", "struct", "ptr", "nilptr", "nilre", "chan", "nil_wide", "nil_sub", "arr_int2", "arr_str2", "arr0", "arr_named"})
 StrKey == StringS(None, None, None)
 \* one level of context around (leaf, x)
 Wrap1(leaf, x) ==
@@ -396,6 +404,15 @@ SubObjects ==
         dv \in {None, Some(M("string_any", << <<Str("a"), F64(10)>> >>)), Some(M("string_any", <<>>))}, lay \in {"wide", "wide_p"} }
     \cup { ObjectS("P", << Prop("a", TA, TRUE), Prop("sp", SubObj(None), FALSE) >>, "wide", FALSE),
            ObjectS("P", << Prop("a", TA, TRUE), Prop("s", SubObj(None), TRUE) >>, "ptrs", TRUE) }
+\* an object-typed property whose declared default is in the single-property SHORTHAND form (a non-map default),
+\* inside a by-value struct-mapped member that has no default of its own, inside a struct-mapped object
+ShorthandDefaultObjs ==
+    { ObjectS("T", << Prop("a", TA, TRUE), Prop("w", MiddleObj, FALSE) >>, "outer", FALSE), MiddleObj,
+      ObjectS("T", << Prop("a", TA, TRUE), PropS("x", NameObj, FALSE, <<>>, <<>>, <<>>, Some(Str("a")), FALSE, FALSE) >>, "map", FALSE) }
+ShorthandDefaultRaw ==
+    { M("any_any", << <<Str("a"), I64(1)>> >>), M("any_any", <<>>), M("any_any", << <<Str("a"), I64(1)>>, <<Str("w"), M("any_any", <<>>)>> >>),
+      M("any_any", << <<Str("a"), I64(1)>>, <<Str("w"), M("any_any", << <<Str("x"), Str("b")>> >>)>> >>),
+      M("any_any", << <<Str("a"), I64(1)>>, <<Str("x"), M("string_any", << <<Str("b"), Str("ab")>> >>)>> >>) }
 SubRawArgs ==
     { M("any_any", << <<Str("a"), I64(1)>> >>), M("any_any", << <<Str("a"), I64(1)>>, <<Str("s"), M("any_any", <<>>)>> >>),
       M("any_any", << <<Str("a"), I64(1)>>, <<Str("s"), M("string_any", << <<Str("a"), I64(7)>> >>)>> >>),
@@ -472,7 +489,15 @@ OneOfAnyArgs ==
     { M("string_any", << <<Str("type"), Str("a")>>, <<Str("x"), x>> >>) :
         x \in { L("any", <<I64(1), Str("a")>>), L("any", <<I64(1), I64(2)>>), I64(1), M("any_any", << <<I64(1), I64(1)>>, <<Str("a"), I64(1)>> >>),
                 L("any", << L("any", <<>>), M("any_any", <<>>) >>) } }
-DiscRaws == { Str("a"), Str("b"), Str("1"), Str("2"), Str("c"), I64(1), I("uint64", 1), I64(2), I64(9), F64(2), B(TRUE), Nil, S("named", "a"),
+\* struct-mapped members declared under the ZERO key (0 / the empty string)
+OneOfZeroKey ==
+    { OneOfS(disc, "type", FALSE,
+             << <<IF disc = "int" THEN 0 ELSE "#empty", ObjectS("A", <<Prop("a", TA, TRUE)>>, lay, FALSE)>>,
+                <<IF disc = "int" THEN 1 ELSE "a", ObjectS("B", <<Prop("B", TB, TRUE)>>, "notag", FALSE)>> >>) :
+        disc \in {"string", "int"}, lay \in {"sub", "sub_p"} }
+    \cup { OneOfS(disc, "type", FALSE, << <<IF disc = "int" THEN 0 ELSE "#empty", ObjectS("A", <<Prop("a", TA, TRUE)>>, "map", FALSE)>>,
+                                         <<IF disc = "int" THEN 1 ELSE "a", ObjectS("B", <<Prop("b", TB, FALSE)>>, "map", FALSE)>> >>) : disc \in {"string", "int"} }
+DiscRaws == { I64(0), Str("#empty"), Str("0"), Str("a"), Str("b"), Str("1"), Str("2"), Str("c"), I64(1), I("uint64", 1), I64(2), I64(9), F64(2), B(TRUE), Nil, S("named", "a"),
               \* not integers, though their truncation is a declared key: 1.5, 2.5, 0.5, -0.5 (float64 / float32), NaN, Inf, "1.5"
               F64(3), F("float32", 3), F64(5), F64(1), F64(-1), FS("float64", "nan"), FS("float64", "+inf"), FS("float32", "-inf"), Str("1.5"), Str("1.0"),
               F("float32", 4) }
@@ -484,13 +509,14 @@ OneOfRawArgs ==
     \cup { M("int64_any", << <<I64(1), I64(1)>> >>), M("typed", << <<Str("type"), Str("a")>> >>), M("typed", << <<S("named", "type"), Str("a")>> >>),
            M("any_any", << <<Str("type"), Str("a")>>, <<I64(1), I64(1)>> >>), Nil, Str("a"), L("any", <<>>), J("struct"),
            M("any_any", << <<Str("B"), Str("a")>>, <<Str("type"), Str("b")>> >>), M("any_any", << <<Str("B"), Str("a")>>, <<Str("type"), I64(2)>> >>) }
-NatDiscs == { Str("a"), Str("b"), Str("c"), I64(1), I64(2), I("uint64", 1), I64(9), Nil }
+NatDiscs == { Str("a"), Str("b"), Str("c"), I64(1), I64(2), I("uint64", 1), I64(9), Nil, I64(0), Str("#empty") }
 OneOfNatArgs ==
     {M("string_any", body \o << <<Str("type"), d>> >>) : body \in Bodies, d \in NatDiscs}
     \cup {M("string_any", body) : body \in Bodies}
     \cup { M("any_any", << <<Str("a"), I64(1)>>, <<Str("type"), Str("a")>> >>), Nil, Str("a"),
            Struct("sub", << <<"a", Some(I64(1))>> >>), Struct("sub", << <<"a", Some(I64(3))>> >>),
-           Struct("notag", << <<"B", Some(Str("a"))>> >>), Struct("wide", << <<"a", Some(I64(1))>> >>) }
+           Struct("notag", << <<"B", Some(Str("a"))>> >>), Struct("wide", << <<"a", Some(I64(1))>> >>),
+           Struct("sub_p", << <<"a", Some(I64(1))>> >>), Struct("sub_p", << <<"a", Some(I64(3))>> >>), J("nil_sub") }
 
 \* references: a self-referential object, a reference to a sibling object, a one-of over references
 SelfScope(layout) ==
@@ -595,13 +621,14 @@ InitC03 ==
           \/ (Deep \/ Len(s.props) # 2 \/ s.layout = "map") /\ \E x \in NatArgs(s) : vec = Vec(s, "ser", x)
           \/ Len(s.props) = 1 /\ \E x \in NatExtra(s) : \E op \in {"valid", "ser"} : vec = Vec(s, op, x)
     \/ \E s \in SubObjects : \E x \in SubRawArgs : vec = Vec(s, "unser", x)
+    \/ \E s \in ShorthandDefaultObjs : \E x \in ShorthandDefaultRaw : \E op \in {"unser", "compat"} : vec = Vec(s, op, x)
     \/ \E s \in ZooObjs : \E x \in ZooRaw : vec = Vec(s, "unser", x)
     \/ \E s \in ZeroObjs : \E x \in ZeroRaw : vec = Vec(s, "unser", x)
     \/ \E s \in ZeroContainers : \E x \in ZeroContainerRaw(s) : vec = Vec(s, "unser", x)
     \/ \E s \in EidObjs :
           \/ \E x \in ObjRawArgs(s) : vec = Vec(s, "unser", x)
           \/ \E x \in EidNat(s) : \E op \in {"valid", "ser"} : vec = Vec(s, op, x)
-    \/ \E s \in OneOfs \cup OneOfStruct :
+    \/ \E s \in OneOfs \cup OneOfStruct \cup OneOfZeroKey :
           \/ \E x \in OneOfRawArgs : \E op \in {"unser", "compat"} : vec = Vec(s, op, x)
           \/ \E x \in OneOfNatArgs : \E op \in {"valid", "ser"} : vec = Vec(s, op, x)
     \/ \E s \in RefScopes : \E x \in RefRawArgs : \E op \in {"unser", "compat"} : (s = LoopScope => op = "unser") /\ vec = Vec(s, op, x)
@@ -637,6 +664,22 @@ C01ContainerRaw(s) ==
                \cup {L("bytes", <<I("uint8", 1), I("uint8", 2)>>)})
     ELSE {M("any_any", ps) : ps \in {q \in GoodPairs : Len(q) <= 2}}
          \cup {M("string_any", << <<Str("a"), x>> >>) : x \in {L("any", <<I64(1), Str("2")>>), L("any", <<>>), F("float32", 3), I64(IMax), FS("float64", "nan")}}
+\* typed lists / maps whose item type is a one-of (NewTypedListSchema[any], NewTypedMapSchema[string, any]): what a
+\* decoder hands over ([]any of map[string]any) already "has the native type", yet every item still has to be unserialized
+ItemOneOf == OneOfS("string", "type", FALSE,
+                    << <<"a", ObjectS("A", << PropS("a", IntS(None, None, None), FALSE, <<>>, <<>>, <<>>, Some(F64(6)), FALSE, FALSE),
+                                             Prop("b", StringS(None, None, None), FALSE) >>, "map", FALSE)>>,
+                       <<"b", ObjectS("B", << Prop("c", BoolS, TRUE) >>, "map", FALSE)>> >>)
+TypedAnyContainers == {ListS(ItemOneOf, None, None, t) : t \in BOOLEAN} \cup {MapS(StringS(None, None, None), ItemOneOf, None, None, t) : t \in BOOLEAN}
+TypedAnyItems ==
+    { M("string_any", << <<Str("type"), Str("a")>> >>),                                   \* omits the defaulted property
+      M("string_any", << <<Str("type"), Str("a")>>, <<Str("a"), F64(2)>> >>),              \* a JSON-decoded number
+      M("string_any", << <<Str("type"), Str("a")>>, <<Str("a"), Str("1")>>, <<Str("b"), I64(1)>> >>),   \* numeric string / number for a string
+      M("string_any", << <<Str("type"), Str("b")>>, <<Str("c"), Str("yes")>> >>),
+      M("any_any", << <<Str("type"), Str("a")>>, <<Str("a"), I("uint64", 2)>> >>) }
+TypedAnyRaw(s) ==
+    IF s.kind = "list" THEN {L("any", <<x>>) : x \in TypedAnyItems} \cup {L("any", <<x, y>>) : x \in TypedAnyItems, y \in TypedAnyItems} \cup {L("any", <<>>)}
+    ELSE {M("string_any", << <<Str("a"), x>> >>) : x \in TypedAnyItems} \cup {M("any_any", << <<Str("a"), x>>, <<Str("b"), y>> >>) : x \in TypedAnyItems, y \in TypedAnyItems}
 MBSchemas == {StringS(p[1], p[2], None) : p \in { <<None, Some(1)>>, <<None, Some(2)>>, <<None, Some(5)>>, <<Some(2), None>>, <<Some(6), None>>,
                                                   <<Some(3), Some(5)>>, <<None, None>> }}
              \cup {ListS(StringS(None, Some(2), None), None, None, t) : t \in BOOLEAN}
@@ -661,7 +704,8 @@ InitC01 ==
     \/ \E s \in ZeroObjs : \E x \in ZeroRaw : vec = VecChain(s, x)
     \/ \E s \in ZeroContainers : \E x \in ZeroContainerRaw(s) : vec = VecChain(s, x)
     \/ \E s \in EidObjs : \E x \in ObjRawArgs(s) : Accepting(s, x) /\ vec = VecChain(s, x)
-    \/ \E s \in OneOfs \cup OneOfStruct : \E x \in OneOfRawArgs : Accepting(s, x) /\ vec = VecChain(s, x)
+    \/ \E s \in OneOfs \cup OneOfStruct \cup OneOfZeroKey : \E x \in OneOfRawArgs : Accepting(s, x) /\ vec = VecChain(s, x)
+    \/ \E s \in TypedAnyContainers : \E x \in TypedAnyRaw(s) : vec = VecChain(s, x)
     \/ \E s \in RefScopes : \E x \in RefRawArgs : Accepting(s, x) /\ vec = VecChain(s, x)
     \/ \E x \in OneOfAnyArgs : Accepting(OneOfAny, x) /\ vec = VecChain(OneOfAny, x)
 
